@@ -39,20 +39,24 @@ func Execute(ctx context.Context, strategy ExecutionStrategy, members []Member) 
 		return ExecuteAny(ctx, members)
 	case ExecutionStrategyOne:
 		res, i, err := ExecuteOne(ctx, members)
-		allRes := make([]proto.Message, len(members))
-		allRes[i] = res
-		return allRes, err
+		return singleResult(len(members), res, i, err)
 	case ExecutionStrategyFast:
 		res, i, err := ExecuteFast(ctx, members)
-		allRes := make([]proto.Message, len(members))
-		allRes[i] = res
-		return allRes, err
+		return singleResult(len(members), res, i, err)
 	case ExecutionStrategyRace:
 		res, i, err := ExecuteRace(ctx, members)
-		allRes := make([]proto.Message, len(members))
-		allRes[i] = res
-		return allRes, err
+		return singleResult(len(members), res, i, err)
 	}
+}
+
+// singleResult reports the single response res of member i as a slice with one slot per member.
+// With no members there is no slot to place a response in: the slice is empty and err is reported as is.
+func singleResult(n int, res proto.Message, i int, err error) ([]proto.Message, error) {
+	allRes := make([]proto.Message, n)
+	if i < n {
+		allRes[i] = res
+	}
+	return allRes, err
 }
 
 // ExecuteAll executes all the member functions in parallel,
